@@ -33,17 +33,45 @@ def Store.SameCfg (s s' : Store) : Prop :=
 
 theorem Store.SameCfg.refl (s : Store) : s.SameCfg s := ⟨rfl, rfl, rfl, rfl, rfl, rfl⟩
 
-/-! ### `_update_state` never raises and writes only the state tag -/
+/-! ### `_update_state` writes only the state tag and raises only what the observer raised -/
+
+/-- A region that ends in `_update_state` returns normally with `v`, or the observer raised. -/
+def ObsRaise {α : Type} (obs : Obs) (r : Except Exc α) (v : α) : Prop :=
+  r = .ok v ∨ ∃ k st, r = .error (.observer k) ∧ obs st = some k
+
+theorem ObsRaise.silent {α : Type} {r : Except Exc α} {v : α} (h : ObsRaise Obs.silent r v) : r = .ok v := by
+  rcases h with h | ⟨k, st, -, h⟩
+  · exact h
+  · simp [Obs.silent] at h
+
+theorem updateStateO_spec (cls : Classifier) (obs : Obs) (s : Store) :
+    ∃ st, (updateStateO cls obs s).1 = { s with state := st } ∧ ObsRaise obs (updateStateO cls obs s).2 () := by
+  unfold updateStateO pyDiv ObsRaise
+  by_cases hcap : s.maxAtp + s.maxGtp = 0
+  · simp only [hcap, reduceIte, Int.lt_irrefl, and_false]
+    split
+    · exact ⟨_, rfl, Or.inl rfl⟩
+    · split
+      · exact ⟨_, rfl, Or.inl rfl⟩
+      · rename_i k hk; exact ⟨_, rfl, Or.inr ⟨k, _, rfl, hk⟩⟩
+  · by_cases hd : s.debt > 0 ∧ s.maxAtp + s.maxGtp > 0
+    · simp only [hcap, hd, reduceIte, Except.map, and_self]
+      split
+      · exact ⟨_, rfl, Or.inl rfl⟩
+      · split
+        · exact ⟨_, rfl, Or.inl rfl⟩
+        · rename_i k hk; exact ⟨_, rfl, Or.inr ⟨k, _, rfl, hk⟩⟩
+    · simp only [hcap, hd, reduceIte, Except.map]
+      split
+      · exact ⟨_, rfl, Or.inl rfl⟩
+      · split
+        · exact ⟨_, rfl, Or.inl rfl⟩
+        · rename_i k hk; exact ⟨_, rfl, Or.inr ⟨k, _, rfl, hk⟩⟩
 
 theorem updateState_spec (cls : Classifier) (s : Store) :
     ∃ st, updateState cls s = ({ s with state := st }, .ok ()) := by
-  unfold updateState pyDiv
-  by_cases hcap : s.maxAtp + s.maxGtp = 0
-  · simp [hcap]
-  · by_cases hd : s.debt > 0 ∧ s.maxAtp + s.maxGtp > 0
-    · simp [hcap, hd, Except.map]
-    · simp [hcap, hd, Except.map]
-
+  obtain ⟨st, h1, h2⟩ := updateStateO_spec cls Obs.silent s
+  exact ⟨st, Prod.ext h1 h2.silent⟩
 
 /-! ### `consume` -/
 
@@ -75,23 +103,48 @@ theorem ConsumeSpec.setState {s : Store} {cost : Nat} {a : Store} {b : Branch} (
   obtain ⟨h1, h2, h3, h4, h5, h6, h7, h8⟩ := h
   exact ⟨h1, h2, h3, h4, h5, h6, h7, fun w => by have := h8 w; exact ⟨this.1, this.2, this.3, this.4, this.5, this.6, this.7⟩⟩
 
-/-- `consume` = `consumeCore`, then (on success only) `_update_state`, which never raises. -/
-theorem consume_eq (cls : Classifier) (s : Store) (cost : Nat) (cur : Cur) (d : Bool) (p : Nat) :
-    ∃ st, consume cls s cost cur d p =
-      ({ (consumeCore s cost cur d p).1 with state := st }, .ok (consumeCore s cost cur d p).2.success,
-        (consumeCore s cost cur d p).2) := by
-  unfold consume
+/-- `consume` = `consumeCore`, then (on success only) `_update_state`, which raises only what the observer raised. -/
+theorem consumeO_eq (cls : Classifier) (obs : Obs) (s : Store) (cost : Nat) (cur : Cur) (d : Bool) (p : Nat) :
+    ∃ st, (consumeO cls obs s cost cur d p).1 = { (consumeCore s cost cur d p).1 with state := st } ∧
+      (consumeO cls obs s cost cur d p).2.2 = (consumeCore s cost cur d p).2 ∧
+      (if (consumeCore s cost cur d p).2.success then ObsRaise obs (consumeO cls obs s cost cur d p).2.1 true
+       else (consumeO cls obs s cost cur d p).2.1 = .ok false) := by
+  unfold consumeO
   by_cases h : (consumeCore s cost cur d p).2.success = true
-  · obtain ⟨st, hst⟩ := updateState_spec cls (consumeCore s cost cur d p).1
-    exact ⟨st, by simp [h, hst, Except.map]⟩
-  · exact ⟨(consumeCore s cost cur d p).1.state, by simp [h]⟩
+  · obtain ⟨st, h1, h2⟩ := updateStateO_spec cls obs (consumeCore s cost cur d p).1
+    refine ⟨st, by simp [h, h1], by simp [h], ?_⟩
+    simp only [h, reduceIte]
+    rcases h2 with h2 | ⟨k, st', h2, hk⟩
+    · left; simp [h2, Except.map]
+    · right; exact ⟨k, st', by simp [h2, Except.map], hk⟩
+  · exact ⟨(consumeCore s cost cur d p).1.state, by simp [h], by simp [h], by simp [h]⟩
+
+/-- the ledger part of `consume` does not depend on the observer at all -/
+theorem consumeO_spec (cls : Classifier) (obs : Obs) (s : Store) (cost : Nat) (cur : Cur) (d : Bool) (p : Nat) :
+    ConsumeSpec s cost ((consumeO cls obs s cost cur d p).1, (consumeO cls obs s cost cur d p).2.2) ∧
+    (if (consumeO cls obs s cost cur d p).2.2.success then ObsRaise obs (consumeO cls obs s cost cur d p).2.1 true
+     else (consumeO cls obs s cost cur d p).2.1 = .ok false) := by
+  obtain ⟨st, h1, h2, h3⟩ := consumeO_eq cls obs s cost cur d p
+  rw [h1, h2]
+  exact ⟨(consumeCore_spec s cost cur d p).setState st, h3⟩
 
 theorem consume_spec (cls : Classifier) (s : Store) (cost : Nat) (cur : Cur) (d : Bool) (p : Nat) :
     ConsumeSpec s cost ((consume cls s cost cur d p).1, (consume cls s cost cur d p).2.2) ∧
     (consume cls s cost cur d p).2.1 = .ok (consume cls s cost cur d p).2.2.success := by
-  obtain ⟨st, h⟩ := consume_eq cls s cost cur d p
-  rw [h]
-  exact ⟨(consumeCore_spec s cost cur d p).setState st, rfl⟩
+  obtain ⟨h1, h2⟩ := consumeO_spec cls Obs.silent s cost cur d p
+  refine ⟨h1, ?_⟩
+  unfold consume
+  cases hb : (consumeO cls Obs.silent s cost cur d p).2.2.success
+  · simpa [hb] using h2
+  · simp only [hb, reduceIte] at h2; exact h2.silent
+
+theorem consumeO_success_of_ok_true (cls : Classifier) (obs : Obs) {s : Store} {cost : Nat} {cur : Cur} {d : Bool} {p : Nat}
+    (h : (consumeO cls obs s cost cur d p).2.1 = .ok true) :
+    (consumeO cls obs s cost cur d p).2.2.success = true := by
+  have hr := (consumeO_spec cls obs s cost cur d p).2
+  cases hb : (consumeO cls obs s cost cur d p).2.2.success
+  · simp only [hb, Bool.false_eq_true, reduceIte] at hr; rw [hr] at h; cases h
+  · rfl
 
 /-! ### `regenerate` / `deposit` -/
 
@@ -120,14 +173,20 @@ theorem RegenSpec.setState {s : Store} {n : Nat} {a : Store} (h : RegenSpec s n 
   exact ⟨h1, fun c => by cases c <;> exact h2 _, h3, h4, h5, h6,
     fun w => by have := h7 w; exact ⟨this.1, this.2, this.3, this.4, this.5, this.6, this.7⟩⟩
 
-theorem regenerate_eq (cls : Classifier) (s : Store) (n : Nat) (cur : Cur) :
-    ∃ st, regenerate cls s n cur = ({ regenCore s n cur with state := st }, .ok ()) :=
-  updateState_spec cls _
+theorem regenerateO_eq (cls : Classifier) (obs : Obs) (s : Store) (n : Nat) (cur : Cur) :
+    ∃ st, (regenerateO cls obs s n cur).1 = { regenCore s n cur with state := st } ∧
+      ObsRaise obs (regenerateO cls obs s n cur).2 () :=
+  updateStateO_spec cls obs _
+
+theorem regenerateO_spec (cls : Classifier) (obs : Obs) (s : Store) (n : Nat) (cur : Cur) :
+    RegenSpec s n (regenerateO cls obs s n cur).1 ∧ ObsRaise obs (regenerateO cls obs s n cur).2 () := by
+  obtain ⟨st, h1, h2⟩ := regenerateO_eq cls obs s n cur
+  rw [h1]; exact ⟨(regenCore_spec s n cur).setState st, h2⟩
 
 theorem regenerate_spec (cls : Classifier) (s : Store) (n : Nat) (cur : Cur) :
     RegenSpec s n (regenerate cls s n cur).1 ∧ (regenerate cls s n cur).2 = .ok () := by
-  obtain ⟨st, h⟩ := regenerate_eq cls s n cur
-  rw [h]; exact ⟨(regenCore_spec s n cur).setState st, rfl⟩
+  obtain ⟨h1, h2⟩ := regenerateO_spec cls Obs.silent s n cur
+  exact ⟨h1, h2.silent⟩
 
 /-! ### `withdraw` (first half of `transfer_to`) -/
 
@@ -183,6 +242,14 @@ theorem applyInterest_spec (s : Store) : InterestSpec s (applyInterest s) := by
   exact ⟨h.1, h.2, h.3, by simp only [applyInterest]; have := h.debt; omega, h.5, h.6, h.7⟩
 
 /-! ### `reset`, dormancy -/
+
+theorem resetO_eq (cls : Classifier) (obs : Obs) (s : Store) :
+    ∃ st, (resetO cls obs s).1 = { resetCore s with state := st } ∧ ObsRaise obs (resetO cls obs s).2 () :=
+  updateStateO_spec cls obs _
+
+theorem exitDormancyO_eq (cls : Classifier) (obs : Obs) (s : Store) :
+    ∃ st, (exitDormancyO cls obs s).1 = { s with state := st } ∧ ObsRaise obs (exitDormancyO cls obs s).2 () :=
+  updateStateO_spec cls obs _
 
 theorem reset_eq (cls : Classifier) (s : Store) :
     ∃ st, reset cls s = ({ resetCore s with state := st }, .ok ()) := updateState_spec cls _
@@ -253,18 +320,18 @@ def paid : Op → Ret → Int
 
 /-- A quantity that behaves like money under every operation (both `worth` and `room` do). -/
 structure Pot (g : Store → Int) : Prop where
-  consume : ∀ cls s cost cur d p, g (consume cls s cost cur d p).1 =
-    g s - (if (consume cls s cost cur d p).2.2.success then (cost : Int) else 0)
+  consume : ∀ cls obs s cost cur d p, g (consumeO cls obs s cost cur d p).1 =
+    g s - (if (consumeO cls obs s cost cur d p).2.2.success then (cost : Int) else 0)
   withdraw : ∀ s n cur, (withdraw s n cur).2 = true → g (withdraw s n cur).1 = g s - n
-  deposit : ∀ cls s n cur, g (regenerate cls s n cur).1 ≤ g s + n
+  deposit : ∀ cls obs s n cur, g (regenerateO cls obs s n cur).1 ≤ g s + n
   convert : ∀ s n, g (convert s n).1 = g s
   interest : ∀ s, s.WF → g (applyInterest s) ≤ g s
   state : ∀ s st, g { s with state := st } = g s
 
 theorem pot_worth : Pot Store.worth where
-  consume cls s cost cur d p := (consume_spec cls s cost cur d p).1.worth
+  consume cls obs s cost cur d p := (consumeO_spec cls obs s cost cur d p).1.worth
   withdraw s n cur h := ((withdraw_spec s n cur).ok h).2.1
-  deposit cls s n cur := (regenerate_spec cls s n cur).1.worth
+  deposit cls obs s n cur := (regenerateO_spec cls obs s n cur).1.worth
   convert s n := by
     have h := convert_spec s n
     have := h.total; have := h.debt
@@ -275,9 +342,9 @@ theorem pot_worth : Pot Store.worth where
   state s st := rfl
 
 theorem pot_room : Pot Store.room where
-  consume cls s cost cur d p := (consume_spec cls s cost cur d p).1.room
+  consume cls obs s cost cur d p := (consumeO_spec cls obs s cost cur d p).1.room
   withdraw s n cur h := ((withdraw_spec s n cur).ok h).2.2
-  deposit cls s n cur := (regenerate_spec cls s n cur).1.room
+  deposit cls obs s n cur := (regenerateO_spec cls obs s n cur).1.room
   convert s n := by
     have h := convert_spec s n
     have := h.total; have := h.debt; have := h.cfg.2.2.2.1
@@ -287,7 +354,7 @@ theorem pot_room : Pot Store.room where
     simp only [Store.room, Store.total, applyInterest]; omega
   state s st := rfl
 
-theorem step_length (cls : Classifier) (sys : Sys) (op : Op) : (step cls sys op).1.length = sys.length := by
+theorem step_length (cls : Classifier) (obs : Nat → Obs) (sys : Sys) (op : Op) : (step cls obs sys op).1.length = sys.length := by
   cases op <;> simp only [step, onStore_length]
   case transfer i j n cur =>
     cases sys[i]? <;> cases sys[j]? <;> simp only []
@@ -295,9 +362,9 @@ theorem step_length (cls : Classifier) (sys : Sys) (op : Op) : (step cls sys op)
 
 /-- Without inflow, a call never increases the colony's total of a money-like quantity, and a successful
     `consume` decreases it by exactly its cost. -/
-theorem step_pot {g : Store → Int} (hg : Pot g) (cls : Classifier) (sys : Sys) (op : Op)
+theorem step_pot {g : Store → Int} (hg : Pot g) (cls : Classifier) (obs : Nat → Obs) (sys : Sys) (op : Op)
     (wf : ∀ j, op = .interest j → Sys.WF sys) (h : op.inflow = false) :
-    sumOf g (step cls sys op).1 + paid op (step cls sys op).2 ≤ sumOf g sys := by
+    sumOf g (step cls obs sys op).1 + paid op (step cls obs sys op).2 ≤ sumOf g sys := by
   cases op with
   | regenerate i n cur => simp [Op.inflow] at h
   | reset i => simp [Op.inflow] at h
@@ -307,10 +374,15 @@ theorem step_pot {g : Store → Int} (hg : Pot g) (cls : Classifier) (sys : Sys)
     cases hj : sys[j]? with
     | none => simp [paid]
     | some t =>
-      obtain ⟨-, hr⟩ := consume_spec cls t cost cur d p
-      have hc := hg.consume cls t cost cur d p
-      simp only [hr, retBool]
-      cases hb : (consume cls t cost cur d p).2.2.success <;> simp [paid, hb] at * <;> omega
+      obtain ⟨-, hr⟩ := consumeO_spec cls (obs j) t cost cur d p
+      have hc := hg.consume cls (obs j) t cost cur d p
+      cases hb : (consumeO cls (obs j) t cost cur d p).2.2.success
+      · simp only [hb, Bool.false_eq_true, reduceIte] at hr hc
+        simp only [hr, retBool, paid]; omega
+      · simp only [hb, reduceIte] at hr hc
+        rcases hr with hr | ⟨k, st, hr, -⟩
+        · simp only [hr, retBool, paid]; omega
+        · simp only [hr, retBool, paid]; omega
   | transfer i j n cur =>
     simp only [step]
     cases hi : sys[i]? with
@@ -333,8 +405,8 @@ theorem step_pot {g : Store → Int} (hg : Pot g) (cls : Classifier) (sys : Sys)
           cases hb : (sys.set i (withdraw a n cur).1)[j]? with
           | none => simp only []; omega
           | some b =>
-            have h2 := hg.deposit cls b n cur
-            simp only [deposit]; omega
+            have h2 := hg.deposit cls (obs j) b n cur
+            simp only [depositO]; omega
   | convert j n =>
     simp only [step]; rw [onStore_sum]
     cases hj : sys[j]? with
@@ -350,7 +422,7 @@ theorem step_pot {g : Store → Int} (hg : Pot g) (cls : Classifier) (sys : Sys)
     cases hj : sys[j]? with
     | none => simp [paid]
     | some t =>
-      obtain ⟨st, hst⟩ := exitDormancy_eq cls t
+      obtain ⟨st, hst, -⟩ := exitDormancyO_eq cls (obs j) t
       have := hg.state t st; simp [paid, hst] at *; omega
   | interest j =>
     simp only [step]; rw [onStore_sum]
@@ -384,16 +456,22 @@ theorem Quiet.trans {a b c : Store} (h1 : Quiet a b) (h2 : Quiet b c) : Quiet a 
 theorem Quiet.setState {a b : Store} (h : Quiet a b) (st : MState) : Quiet a { b with state := st } :=
   ⟨h.cfg, fun w => by have := h.wf w; exact ⟨this.1, this.2, this.3, this.4, this.5, this.6, this.7⟩, h.debt⟩
 
-theorem quiet_consume (cls : Classifier) (s : Store) (cost : Nat) (cur : Cur) (d : Bool) (p : Nat) :
-    Quiet s (consume cls s cost cur d p).1 := by
-  have h := (consume_spec cls s cost cur d p).1
+theorem quiet_consumeO (cls : Classifier) (obs : Obs) (s : Store) (cost : Nat) (cur : Cur) (d : Bool) (p : Nat) :
+    Quiet s (consumeO cls obs s cost cur d p).1 := by
+  have h := (consumeO_spec cls obs s cost cur d p).1
   refine ⟨h.cfg, h.wf, fun w K hK hd => ?_⟩
   have := h.debtLim; simp only [] at this; omega
 
-theorem quiet_regenerate (cls : Classifier) (s : Store) (n : Nat) (cur : Cur) :
-    Quiet s (regenerate cls s n cur).1 := by
-  have h := (regenerate_spec cls s n cur).1
+theorem quiet_consume (cls : Classifier) (s : Store) (cost : Nat) (cur : Cur) (d : Bool) (p : Nat) :
+    Quiet s (consume cls s cost cur d p).1 := quiet_consumeO cls Obs.silent s cost cur d p
+
+theorem quiet_regenerateO (cls : Classifier) (obs : Obs) (s : Store) (n : Nat) (cur : Cur) :
+    Quiet s (regenerateO cls obs s n cur).1 := by
+  have h := (regenerateO_spec cls obs s n cur).1
   exact ⟨h.cfg, h.wf, fun w K hK hd => by have := h.debtLe; omega⟩
+
+theorem quiet_regenerate (cls : Classifier) (s : Store) (n : Nat) (cur : Cur) :
+    Quiet s (regenerate cls s n cur).1 := quiet_regenerateO cls Obs.silent s n cur
 
 theorem quiet_withdraw (s : Store) (n : Nat) (cur : Cur) : Quiet s (withdraw s n cur).1 := by
   have h := withdraw_spec s n cur
@@ -405,17 +483,21 @@ theorem quiet_convert (s : Store) (n : Nat) : Quiet s (convert s n).1 := by
 
 theorem quiet_dorm (s : Store) : Quiet s (enterDormancy s) := (Quiet.refl s).setState _
 
-theorem quiet_wake (cls : Classifier) (s : Store) : Quiet s (exitDormancy cls s).1 := by
-  obtain ⟨st, h⟩ := exitDormancy_eq cls s
+theorem quiet_wakeO (cls : Classifier) (obs : Obs) (s : Store) : Quiet s (exitDormancyO cls obs s).1 := by
+  obtain ⟨st, h, -⟩ := exitDormancyO_eq cls obs s
   rw [h]; exact (Quiet.refl s).setState st
+
+theorem quiet_wake (cls : Classifier) (s : Store) : Quiet s (exitDormancy cls s).1 := quiet_wakeO cls Obs.silent s
 
 theorem quiet_resetCore (s : Store) : Quiet s (resetCore s) :=
   ⟨Store.SameCfg.refl _, fun w => ⟨w.maxAtp, w.maxGtp, w.maxNadh, Int.le_refl 0, w.maxAtp, w.maxGtp, w.maxNadh⟩,
    fun w K hK hd => by have := w.debt; simp only [resetCore]; omega⟩
 
-theorem quiet_reset (cls : Classifier) (s : Store) : Quiet s (reset cls s).1 := by
-  obtain ⟨st, h⟩ := reset_eq cls s
+theorem quiet_resetO (cls : Classifier) (obs : Obs) (s : Store) : Quiet s (resetO cls obs s).1 := by
+  obtain ⟨st, h, -⟩ := resetO_eq cls obs s
   rw [h]; exact (quiet_resetCore s).setState st
+
+theorem quiet_reset (cls : Classifier) (s : Store) : Quiet s (reset cls s).1 := quiet_resetO cls Obs.silent s
 
 /-- interest charged to store `i` by this call (zero unless the call is `apply_debt_interest` on `i`) -/
 def interestAt (i : Nat) (sys : Sys) : Op → Int
@@ -423,19 +505,19 @@ def interestAt (i : Nat) (sys : Sys) : Op → Int
   | _ => 0
 
 /-- Every call other than `apply_debt_interest` is `Quiet` on every store of the colony. -/
-theorem step_quiet (cls : Classifier) (sys : Sys) (op : Op) (hop : ∀ j, op ≠ .interest j) (i : Nat) (s : Store)
-    (h : sys[i]? = some s) : ∃ s', (step cls sys op).1[i]? = some s' ∧ Quiet s s' := by
+theorem step_quiet (cls : Classifier) (obs : Nat → Obs) (sys : Sys) (op : Op) (hop : ∀ j, op ≠ .interest j) (i : Nat) (s : Store)
+    (h : sys[i]? = some s) : ∃ s', (step cls obs sys op).1[i]? = some s' ∧ Quiet s s' := by
   cases op with
   | interest j => exact absurd rfl (hop j)
   | consume j cost cur d p =>
     simp only [step, onStore_get, h, Option.map]
     by_cases e : j = i
-    · simp only [e, reduceIte]; exact ⟨_, rfl, quiet_consume cls s cost cur d p⟩
+    · simp only [e, reduceIte]; exact ⟨_, rfl, quiet_consumeO cls (obs i) s cost cur d p⟩
     · simp only [e, reduceIte]; exact ⟨_, rfl, Quiet.refl s⟩
   | regenerate j n cur =>
     simp only [step, onStore_get, h, Option.map]
     by_cases e : j = i
-    · simp only [e, reduceIte]; exact ⟨_, rfl, quiet_regenerate cls s n cur⟩
+    · simp only [e, reduceIte]; exact ⟨_, rfl, quiet_regenerateO cls (obs i) s n cur⟩
     · simp only [e, reduceIte]; exact ⟨_, rfl, Quiet.refl s⟩
   | convert j n =>
     simp only [step, onStore_get, h, Option.map]
@@ -450,12 +532,12 @@ theorem step_quiet (cls : Classifier) (sys : Sys) (op : Op) (hop : ∀ j, op ≠
   | wake j =>
     simp only [step, onStore_get, h, Option.map]
     by_cases e : j = i
-    · simp only [e, reduceIte]; exact ⟨_, rfl, quiet_wake cls s⟩
+    · simp only [e, reduceIte]; exact ⟨_, rfl, quiet_wakeO cls (obs i) s⟩
     · simp only [e, reduceIte]; exact ⟨_, rfl, Quiet.refl s⟩
   | reset j =>
     simp only [step, onStore_get, h, Option.map]
     by_cases e : j = i
-    · simp only [e, reduceIte]; exact ⟨_, rfl, quiet_reset cls s⟩
+    · simp only [e, reduceIte]; exact ⟨_, rfl, quiet_resetO cls (obs i) s⟩
     · simp only [e, reduceIte]; exact ⟨_, rfl, Quiet.refl s⟩
   | transfer a b n cur =>
     simp only [step]
@@ -478,7 +560,7 @@ theorem step_quiet (cls : Classifier) (sys : Sys) (op : Op) (hop : ∀ j, op ≠
         split
         · simp only [onStore_get, hs1, Option.map]
           by_cases e : b = i
-          · simp only [e, reduceIte]; exact ⟨_, rfl, q1.trans (quiet_regenerate cls s1 n cur)⟩
+          · simp only [e, reduceIte]; exact ⟨_, rfl, q1.trans (quiet_regenerateO cls (obs i) s1 n cur)⟩
           · simp only [e, reduceIte]; exact ⟨_, rfl, q1⟩
         · exact ⟨s1, hs1, q1⟩
 
@@ -491,8 +573,8 @@ theorem interestAt_nonneg (i : Nat) (sys : Sys) (op : Op) (wf : Sys.WF sys) : 0 
   · exact Int.le_refl 0
 
 /-- `apply_debt_interest` on store `j`: store `i` is untouched unless `i = j`, where the debt grows by the interest. -/
-theorem step_interest (cls : Classifier) (sys : Sys) (j i : Nat) (s : Store) (h : sys[i]? = some s) :
-    ∃ s', (step cls sys (.interest j)).1[i]? = some s' ∧ s.SameCfg s' ∧ (s.WF → s'.WF) ∧
+theorem step_interest (cls : Classifier) (obs : Nat → Obs) (sys : Sys) (j i : Nat) (s : Store) (h : sys[i]? = some s) :
+    ∃ s', (step cls obs sys (.interest j)).1[i]? = some s' ∧ s.SameCfg s' ∧ (s.WF → s'.WF) ∧
       s'.debt = s.debt + interestAt i sys (.interest j) := by
   simp only [step, onStore_get, h, Option.map, interestAt]
   by_cases e : j = i
@@ -501,61 +583,106 @@ theorem step_interest (cls : Classifier) (sys : Sys) (j i : Nat) (s : Store) (h 
     exact ⟨_, rfl, this.cfg, this.wf, this.debt⟩
   · simp only [e, reduceIte]; exact ⟨s, rfl, Store.SameCfg.refl s, id, by omega⟩
 
-theorem step_wf (cls : Classifier) (sys : Sys) (op : Op) (wf : Sys.WF sys) : Sys.WF (step cls sys op).1 := by
+theorem step_wf (cls : Classifier) (obs : Nat → Obs) (sys : Sys) (op : Op) (wf : Sys.WF sys) : Sys.WF (step cls obs sys op).1 := by
   intro i s' hs'
-  have hlt : i < sys.length := by rw [← step_length cls sys op]; exact lt_of_get hs'
+  have hlt : i < sys.length := by rw [← step_length cls obs sys op]; exact lt_of_get hs'
   obtain ⟨s, hs⟩ : ∃ s, sys[i]? = some s := ⟨sys[i], by simp [hlt]⟩
   by_cases hop : ∀ j, op ≠ .interest j
-  · obtain ⟨s'', h1, q⟩ := step_quiet cls sys op hop i s hs
+  · obtain ⟨s'', h1, q⟩ := step_quiet cls obs sys op hop i s hs
     rw [h1] at hs'; cases hs'; exact q.wf (wf i s hs)
   · obtain ⟨j, hj⟩ := Classical.not_forall.mp hop
     have hj : op = .interest j := Classical.not_not.mp hj
     subst hj
-    obtain ⟨s'', h1, -, w, -⟩ := step_interest cls sys j i s hs
+    obtain ⟨s'', h1, -, w, -⟩ := step_interest cls obs sys j i s hs
     rw [h1] at hs'; cases hs'; exact w (wf i s hs)
 
-/-! ### no call raises -/
+/-! ### a call raises only what an observer raised -/
 
-theorem step_no_raise (cls : Classifier) (sys : Sys) (op : Op) (e : Exc) : (step cls sys op).2 ≠ .raised e := by
+theorem retUnit_raised {obs : Obs} {r : Except Exc Unit} {e : Exc} (h : ObsRaise obs r ())
+    (hr : retUnit r = .raised e) : ∃ k st, e = .observer k ∧ obs st = some k := by
+  rcases h with h | ⟨k, st, h, hk⟩
+  · rw [h] at hr; simp [retUnit] at hr
+  · rw [h] at hr; simp only [retUnit, Ret.raised.injEq] at hr; exact ⟨k, st, hr.symm, hk⟩
+
+theorem retBool_raised {obs : Obs} {r : Except Exc Bool} {e : Exc} {b : Bool} (h : ObsRaise obs r b)
+    (hr : retBool r = .raised e) : ∃ k st, e = .observer k ∧ obs st = some k := by
+  rcases h with h | ⟨k, st, h, hk⟩
+  · rw [h] at hr; simp [retBool] at hr
+  · rw [h] at hr; simp only [retBool, Ret.raised.injEq] at hr; exact ⟨k, st, hr.symm, hk⟩
+
+/-- If a call raises, the exception is one that the observer of some store raised during that call
+    (`_update_state`'s own divisions never raise). -/
+theorem step_raise_only_observer (cls : Classifier) (obs : Nat → Obs) (sys : Sys) (op : Op) (e : Exc)
+    (h : (step cls obs sys op).2 = .raised e) : ∃ j k st, e = .observer k ∧ obs j st = some k := by
   cases op with
   | consume j cost cur d p =>
-    simp only [step, onStore_ret]
-    cases sys[j]? with
-    | none => simp
-    | some t => simp only [(consume_spec cls t cost cur d p).2, retBool]; simp
+    simp only [step, onStore_ret] at h
+    cases hj : sys[j]? with
+    | none => rw [hj] at h; simp at h
+    | some t =>
+      rw [hj] at h
+      have hs := (consumeO_spec cls (obs j) t cost cur d p).2
+      cases hb : (consumeO cls (obs j) t cost cur d p).2.2.success
+      · simp only [hb, Bool.false_eq_true, reduceIte] at hs; simp [hs, retBool] at h
+      · simp only [hb, reduceIte] at hs
+        obtain ⟨k, st, h1, h2⟩ := retBool_raised hs h
+        exact ⟨j, k, st, h1, h2⟩
   | regenerate j n cur =>
-    simp only [step, onStore_ret]
-    cases sys[j]? with
-    | none => simp
-    | some t => simp only [(regenerate_spec cls t n cur).2, retUnit]; simp
+    simp only [step, onStore_ret] at h
+    cases hj : sys[j]? with
+    | none => rw [hj] at h; simp at h
+    | some t =>
+      rw [hj] at h
+      obtain ⟨k, st, h1, h2⟩ := retUnit_raised (regenerateO_spec cls (obs j) t n cur).2 h
+      exact ⟨j, k, st, h1, h2⟩
   | transfer a b n cur =>
-    simp only [step]
-    cases sys[a]? with
-    | none => simp
+    simp only [step] at h
+    cases ha : sys[a]? with
+    | none => rw [ha] at h; simp at h
     | some sa =>
-      cases sys[b]? with
-      | none => simp
+      cases hb : sys[b]? with
+      | none => rw [ha, hb] at h; simp at h
       | some sb =>
-        simp only []
-        split
-        · rw [onStore_ret]
-          cases (sys.set a (withdraw sa n cur).1)[b]? with
-          | none => simp
-          | some t => simp only [deposit, (regenerate_spec cls t n cur).2]; simp
-        · simp
-  | convert j n => simp only [step, onStore_ret]; cases sys[j]? <;> simp
-  | dorm j => simp only [step, onStore_ret]; cases sys[j]? <;> simp
+        rw [ha, hb] at h
+        simp only [] at h
+        split at h
+        · rw [onStore_ret] at h
+          cases ht : (sys.set a (withdraw sa n cur).1)[b]? with
+          | none => rw [ht] at h; simp at h
+          | some t =>
+            rw [ht] at h
+            rcases (regenerateO_spec cls (obs b) t n cur).2 with h2 | ⟨k, st, h2, hk⟩
+            · simp [depositO, h2] at h
+            · simp only [depositO, h2, Ret.raised.injEq] at h; exact ⟨b, k, st, h.symm, hk⟩
+        · simp at h
+  | convert j n => simp only [step, onStore_ret] at h; cases hj : sys[j]? <;> rw [hj] at h <;> simp at h
+  | dorm j => simp only [step, onStore_ret] at h; cases hj : sys[j]? <;> rw [hj] at h <;> simp at h
   | wake j =>
-    simp only [step, onStore_ret]
-    cases sys[j]? with
-    | none => simp
-    | some t => obtain ⟨st, h⟩ := exitDormancy_eq cls t; simp only [h, retUnit]; simp
-  | interest j => simp only [step, onStore_ret]; cases sys[j]? <;> simp
+    simp only [step, onStore_ret] at h
+    cases hj : sys[j]? with
+    | none => rw [hj] at h; simp at h
+    | some t =>
+      rw [hj] at h
+      obtain ⟨st', -, h2⟩ := exitDormancyO_eq cls (obs j) t
+      obtain ⟨k, st, h1, h2⟩ := retUnit_raised h2 h
+      exact ⟨j, k, st, h1, h2⟩
+  | interest j => simp only [step, onStore_ret] at h; cases hj : sys[j]? <;> rw [hj] at h <;> simp at h
   | reset j =>
-    simp only [step, onStore_ret]
-    cases sys[j]? with
-    | none => simp
-    | some t => obtain ⟨st, h⟩ := reset_eq cls t; simp only [h, retUnit]; simp
+    simp only [step, onStore_ret] at h
+    cases hj : sys[j]? with
+    | none => rw [hj] at h; simp at h
+    | some t =>
+      rw [hj] at h
+      obtain ⟨st', -, h2⟩ := resetO_eq cls (obs j) t
+      obtain ⟨k, st, h1, h2⟩ := retUnit_raised h2 h
+      exact ⟨j, k, st, h1, h2⟩
+
+/-- With observers that never raise (in particular with none installed) no call raises. -/
+theorem step_no_raise (cls : Classifier) (obs : Nat → Obs) (sys : Sys) (op : Op)
+    (hobs : ∀ j st, obs j st = none) (e : Exc) : (step cls obs sys op).2 ≠ .raised e := by
+  intro h
+  obtain ⟨j, k, st, -, hk⟩ := step_raise_only_observer cls obs sys op e h
+  rw [hobs j st] at hk; cases hk
 
 /-! ### histories -/
 
@@ -570,26 +697,28 @@ def successes : List Op → List Ret → Nat
   | _ :: ops, _ :: rs => successes ops rs
   | _, _ => 0
 
-/-- interest charged to store `i` along a history -/
-def accrued (cls : Classifier) (i : Nat) : Sys → List Op → Int
-  | _, [] => 0
-  | sys, op :: ops => interestAt i sys op + accrued cls i (step cls sys op).1 ops
+/-- interest charged to store `i` along a history (`adv`, `k`: the observers and the step counter of `run`) -/
+def accrued (cls : Classifier) (adv : Nat → Nat → Obs) (i : Nat) : Nat → Sys → List Op → Int
+  | _, _, [] => 0
+  | k, sys, op :: ops => interestAt i sys op + accrued cls adv i (k + 1) (step cls (adv k) sys op).1 ops
 
-theorem run_length (cls : Classifier) : ∀ (ops : List Op) (sys : Sys), (run cls sys ops).2.length = ops.length
-  | [], _ => rfl
-  | op :: ops, sys => by simp [run, run_length cls ops]
+theorem run_length (cls : Classifier) (adv : Nat → Nat → Obs) :
+    ∀ (ops : List Op) (k : Nat) (sys : Sys), (run cls adv k sys ops).2.length = ops.length
+  | [], _, _ => rfl
+  | op :: ops, k, sys => by simp [run, run_length cls adv ops]
 
-theorem run_wf (cls : Classifier) : ∀ (ops : List Op) (sys : Sys), Sys.WF sys → Sys.WF (run cls sys ops).1
-  | [], _, h => h
-  | op :: ops, sys, h => run_wf cls ops _ (step_wf cls sys op h)
+theorem run_wf (cls : Classifier) (adv : Nat → Nat → Obs) :
+    ∀ (ops : List Op) (k : Nat) (sys : Sys), Sys.WF sys → Sys.WF (run cls adv k sys ops).1
+  | [], _, _, h => h
+  | op :: ops, k, sys, h => run_wf cls adv ops (k + 1) _ (step_wf cls (adv k) sys op h)
 
-theorem run_pot {g : Store → Int} (hg : Pot g) (cls : Classifier) :
-    ∀ (ops : List Op) (sys : Sys), Sys.WF sys → (∀ op ∈ ops, op.inflow = false) →
-      sumOf g (run cls sys ops).1 + spentOf ops (run cls sys ops).2 ≤ sumOf g sys
-  | [], _, _, _ => by simp [run, spentOf]
-  | op :: ops, sys, wf, h => by
-    have h1 := step_pot hg cls sys op (fun _ _ => wf) (h op (by simp))
-    have h2 := run_pot hg cls ops _ (step_wf cls sys op wf) (fun o ho => h o (by simp [ho]))
+theorem run_pot {g : Store → Int} (hg : Pot g) (cls : Classifier) (adv : Nat → Nat → Obs) :
+    ∀ (ops : List Op) (k : Nat) (sys : Sys), Sys.WF sys → (∀ op ∈ ops, op.inflow = false) →
+      sumOf g (run cls adv k sys ops).1 + spentOf ops (run cls adv k sys ops).2 ≤ sumOf g sys
+  | [], _, _, _, _ => by simp [run, spentOf]
+  | op :: ops, k, sys, wf, h => by
+    have h1 := step_pot hg cls (adv k) sys op (fun _ _ => wf) (h op (by simp))
+    have h2 := run_pot hg cls adv ops (k + 1) _ (step_wf cls (adv k) sys op wf) (fun o ho => h o (by simp [ho]))
     simp only [run, spentOf]; omega
 
 theorem room_nonneg (s : Store) (h : s.WF) : 0 ≤ s.room := by
@@ -603,29 +732,29 @@ theorem sumOf_nonneg (g : Store → Int) (hg : ∀ s, s.WF → 0 ≤ g s) : ∀ 
     have h1 := sumOf_nonneg g hg l (fun i s hs => h (i + 1) s (by simpa using hs))
     simp [sumOf] at *; omega
 
-theorem run_debt (cls : Classifier) (i : Nat) :
-    ∀ (ops : List Op) (sys : Sys) (s : Store) (K : Int), Sys.WF sys → sys[i]? = some s → 0 ≤ K →
+theorem run_debt (cls : Classifier) (adv : Nat → Nat → Obs) (i : Nat) :
+    ∀ (ops : List Op) (k : Nat) (sys : Sys) (s : Store) (K : Int), Sys.WF sys → sys[i]? = some s → 0 ≤ K →
       s.debt ≤ s.maxDebt + K →
-      ∃ s', (run cls sys ops).1[i]? = some s' ∧ s'.maxDebt = s.maxDebt ∧
-        s'.debt ≤ s.maxDebt + K + accrued cls i sys ops ∧ 0 ≤ accrued cls i sys ops
-  | [], sys, s, K, _, h, _, hd => ⟨s, h, rfl, by simp [accrued]; omega, by simp [accrued]⟩
-  | op :: ops, sys, s, K, wf, h, hK, hd => by
+      ∃ s', (run cls adv k sys ops).1[i]? = some s' ∧ s'.maxDebt = s.maxDebt ∧
+        s'.debt ≤ s.maxDebt + K + accrued cls adv i k sys ops ∧ 0 ≤ accrued cls adv i k sys ops
+  | [], _, sys, s, K, _, h, _, hd => ⟨s, h, rfl, by simp [accrued]; omega, by simp [accrued]⟩
+  | op :: ops, k, sys, s, K, wf, h, hK, hd => by
     have hint := interestAt_nonneg i sys op wf
-    have wf' := step_wf cls sys op wf
+    have wf' := step_wf cls (adv k) sys op wf
     -- one step
-    have h1 : ∃ s1, (step cls sys op).1[i]? = some s1 ∧ s1.maxDebt = s.maxDebt ∧
+    have h1 : ∃ s1, (step cls (adv k) sys op).1[i]? = some s1 ∧ s1.maxDebt = s.maxDebt ∧
         s1.debt ≤ s.maxDebt + (K + interestAt i sys op) := by
       by_cases hop : ∀ j, op ≠ .interest j
-      · obtain ⟨s1, e1, q⟩ := step_quiet cls sys op hop i s h
+      · obtain ⟨s1, e1, q⟩ := step_quiet cls (adv k) sys op hop i s h
         refine ⟨s1, e1, q.cfg.2.2.2.1, ?_⟩
         have := q.debt (wf i s h) K hK hd; omega
       · obtain ⟨j, hj⟩ := Classical.not_forall.mp hop
         have hj : op = .interest j := Classical.not_not.mp hj
         subst hj
-        obtain ⟨s1, e1, c, -, d⟩ := step_interest cls sys j i s h
+        obtain ⟨s1, e1, c, -, d⟩ := step_interest cls (adv k) sys j i s h
         exact ⟨s1, e1, c.2.2.2.1, by omega⟩
     obtain ⟨s1, e1, m1, d1⟩ := h1
-    obtain ⟨s', e', m', d', a'⟩ := run_debt cls i ops _ s1 (K + interestAt i sys op) wf' e1 (by omega)
+    obtain ⟨s', e', m', d', a'⟩ := run_debt cls adv i ops (k + 1) _ s1 (K + interestAt i sys op) wf' e1 (by omega)
       (by rw [m1]; exact d1)
     refine ⟨s', e', m'.trans m1, ?_, ?_⟩
     · simp only [accrued]; rw [m1] at d'; omega
@@ -647,15 +776,15 @@ theorem successes_le_spent : ∀ (ops : List Op) (rs : List Ret),
     | _ => cases r <;> simp [successes, spentOf, paid] at * <;> omega
 
 
-theorem accrued_eq_zero (cls : Classifier) (i : Nat) :
-    ∀ (ops : List Op) (sys : Sys), (∀ op ∈ ops, ∀ j, op ≠ .interest j) → accrued cls i sys ops = 0
-  | [], _, _ => rfl
-  | op :: ops, sys, h => by
+theorem accrued_eq_zero (cls : Classifier) (adv : Nat → Nat → Obs) (i : Nat) :
+    ∀ (ops : List Op) (k : Nat) (sys : Sys), (∀ op ∈ ops, ∀ j, op ≠ .interest j) → accrued cls adv i k sys ops = 0
+  | [], _, _, _ => rfl
+  | op :: ops, k, sys, h => by
     have h0 : interestAt i sys op = 0 := by
       cases op with
       | interest j => exact absurd rfl (h _ (by simp) j)
       | _ => rfl
-    simp only [accrued, h0, accrued_eq_zero cls i ops _ (fun o ho => h o (by simp [ho]))]; rfl
+    simp only [accrued, h0, accrued_eq_zero cls adv i ops (k + 1) _ (fun o ho => h o (by simp [ho]))]; rfl
 
 /-- number of `consume` calls in a history -/
 def consumeCalls : List Op → Nat
@@ -708,46 +837,47 @@ theorem spentOf_nonneg : ∀ (ops : List Op) (rs : List Ret), 0 ≤ spentOf ops 
     simp only [spentOf]; omega
 
 /-- The loop `while store[i].consume(cost, cur, allow_debt, prio): <body>` where `<body>` is any fixed list of
-    calls on the colony, run for at most `fuel` iterations.  Returns how many iterations completed and whether
-    the loop was left because the spend was refused (`false` = the fuel ran out first). -/
-def payLoop (cls : Classifier) (i cost : Nat) (cur : Cur) (d : Bool) (p : Nat) (body : List Op) :
-    Nat → Sys → Nat × Bool
-  | 0, _ => (0, false)
-  | fuel + 1, sys =>
-    let r := step cls sys (.consume i cost cur d p)
+    calls on the colony, run for at most `fuel` iterations starting at step number `k` of the adversary `adv`.
+    Returns how many iterations completed and whether the loop was left because the spend did not report success
+    (refused — or interrupted by a raising observer; `false` = the fuel ran out first). -/
+def payLoop (cls : Classifier) (adv : Nat → Nat → Obs) (i cost : Nat) (cur : Cur) (d : Bool) (p : Nat)
+    (body : List Op) : Nat → Nat → Sys → Nat × Bool
+  | 0, _, _ => (0, false)
+  | fuel + 1, k, sys =>
+    let r := step cls (adv k) sys (.consume i cost cur d p)
     if r.2 = .bool true then
-      let rest := payLoop cls i cost cur d p body fuel (run cls r.1 body).1
+      let rest := payLoop cls adv i cost cur d p body fuel (k + 1 + body.length) (run cls adv (k + 1) r.1 body).1
       (rest.1 + 1, rest.2)
     else (0, true)
 
-theorem payLoop_spec (cls : Classifier) (i cost : Nat) (cur : Cur) (d : Bool) (p : Nat) (body : List Op)
-    (hc : 1 ≤ cost) (hb : ∀ op ∈ body, op.inflow = false) :
-    ∀ (fuel : Nat) (sys : Sys), Sys.WF sys →
-      ((payLoop cls i cost cur d p body fuel sys).1 : Int) ≤ sumOf Store.room sys ∧
-      (sumOf Store.room sys < fuel → (payLoop cls i cost cur d p body fuel sys).2 = true)
-  | 0, sys, wf => by
+theorem payLoop_spec (cls : Classifier) (adv : Nat → Nat → Obs) (i cost : Nat) (cur : Cur) (d : Bool) (p : Nat)
+    (body : List Op) (hc : 1 ≤ cost) (hb : ∀ op ∈ body, op.inflow = false) :
+    ∀ (fuel k : Nat) (sys : Sys), Sys.WF sys →
+      ((payLoop cls adv i cost cur d p body fuel k sys).1 : Int) ≤ sumOf Store.room sys ∧
+      (sumOf Store.room sys < fuel → (payLoop cls adv i cost cur d p body fuel k sys).2 = true)
+  | 0, k, sys, wf => by
     have := sumOf_nonneg Store.room room_nonneg sys wf
     simp only [payLoop]; omega
-  | fuel + 1, sys, wf => by
+  | fuel + 1, k, sys, wf => by
     have h0 := sumOf_nonneg Store.room room_nonneg sys wf
     simp only [payLoop]
     split
     · rename_i hr
-      have h1 := step_pot pot_room cls sys (.consume i cost cur d p) (fun _ _ => wf) rfl
+      have h1 := step_pot pot_room cls (adv k) sys (.consume i cost cur d p) (fun _ _ => wf) rfl
       rw [hr] at h1; simp only [paid] at h1
-      have wf1 := step_wf cls sys (.consume i cost cur d p) wf
-      have h2 := run_pot pot_room cls body _ wf1 hb
-      have h3 := spentOf_nonneg body (run cls (step cls sys (.consume i cost cur d p)).1 body).2
-      have ih := payLoop_spec cls i cost cur d p body hc hb fuel _ (run_wf cls body _ wf1)
+      have wf1 := step_wf cls (adv k) sys (.consume i cost cur d p) wf
+      have h2 := run_pot pot_room cls adv body (k + 1) _ wf1 hb
+      have h3 := spentOf_nonneg body (run cls adv (k + 1) (step cls (adv k) sys (.consume i cost cur d p)).1 body).2
+      have ih := payLoop_spec cls adv i cost cur d p body hc hb fuel (k + 1 + body.length) _
+        (run_wf cls adv body (k + 1) _ wf1)
       constructor
       · have := ih.1; simp only []; omega
       · intro hf; exact ih.2 (by omega)
     · exact ⟨by simpa using h0, fun _ => rfl⟩
 
-
 /-- a refused transfer changes nothing -/
-theorem step_transfer_refused (cls : Classifier) (sys : Sys) (i j n : Nat) (cur : Cur)
-    (h : (step cls sys (.transfer i j n cur)).2 = .bool false) : (step cls sys (.transfer i j n cur)).1 = sys := by
+theorem step_transfer_refused (cls : Classifier) (obs : Nat → Obs) (sys : Sys) (i j n : Nat) (cur : Cur)
+    (h : (step cls obs sys (.transfer i j n cur)).2 = .bool false) : (step cls obs sys (.transfer i j n cur)).1 = sys := by
   simp only [step] at h ⊢
   cases hi : sys[i]? with
   | none => simp
@@ -771,8 +901,9 @@ theorem step_transfer_refused (cls : Classifier) (sys : Sys) (i j n : Nat) (cur 
         | none => rw [hb] at h; simp at h
         | some b =>
           rw [hb] at h
-          simp only [deposit, (regenerate_spec cls b n cur).2] at h
-          simp at h
+          rcases (regenerateO_spec cls (obs j) b n cur).2 with h2 | ⟨k, st, h2, -⟩
+          · simp [depositO, h2] at h
+          · simp [depositO, h2] at h
 
 /-! ### GTP and NADH never exceed their capacities -/
 
@@ -794,9 +925,9 @@ theorem withdraw_le (s : Store) (n : Nat) (cur : Cur) :
 theorem convert_le (s : Store) (n : Nat) : (convert s n).1.gtp ≤ s.gtp ∧ (convert s n).1.nadh ≤ s.nadh := by
   unfold convert; dsimp only; (repeat' split) <;> leaf2 <;> omega
 
-theorem within_consume (cls : Classifier) (s : Store) (cost : Nat) (cur : Cur) (d : Bool) (p : Nat)
-    (h : s.Within) : (consume cls s cost cur d p).1.Within := by
-  obtain ⟨st, e⟩ := consume_eq cls s cost cur d p
+theorem within_consume (cls : Classifier) (obs : Obs) (s : Store) (cost : Nat) (cur : Cur) (d : Bool) (p : Nat)
+    (h : s.Within) : (consumeO cls obs s cost cur d p).1.Within := by
+  obtain ⟨st, e, -, -⟩ := consumeO_eq cls obs s cost cur d p
   have hs := consumeCore_spec s cost cur d p
   have hg := consumeCore_gn s cost cur d p h.wf
   have w := hs.wf h.wf
@@ -804,9 +935,9 @@ theorem within_consume (cls : Classifier) (s : Store) (cost : Nat) (cur : Cur) (
   rw [e]
   exact ⟨⟨w.1, w.2, w.3, w.4, w.5, w.6, w.7⟩, by have := h.gtp; simp only []; omega, by have := h.nadh; simp only []; omega⟩
 
-theorem within_regenerate (cls : Classifier) (s : Store) (n : Nat) (cur : Cur) (h : s.Within) :
-    (regenerate cls s n cur).1.Within := by
-  have hs := (regenerate_spec cls s n cur).1
+theorem within_regenerate (cls : Classifier) (obs : Obs) (s : Store) (n : Nat) (cur : Cur) (h : s.Within) :
+    (regenerateO cls obs s n cur).1.Within := by
+  have hs := (regenerateO_spec cls obs s n cur).1
   obtain ⟨c1, c2, c3, -⟩ := hs.cfg
   have g := hs.capped .gtp; have m := hs.capped .nadh
   simp only [Store.bal, Store.cap] at g m
@@ -827,14 +958,14 @@ theorem within_convert (s : Store) (n : Nat) (h : s.Within) : (convert s n).1.Wi
 theorem Store.Within.setState {s : Store} (h : s.Within) (st : MState) : Store.Within { s with state := st } :=
   ⟨⟨h.wf.1, h.wf.2, h.wf.3, h.wf.4, h.wf.5, h.wf.6, h.wf.7⟩, h.gtp, h.nadh⟩
 
-theorem within_reset (cls : Classifier) (s : Store) (h : s.Within) : (reset cls s).1.Within := by
-  obtain ⟨st, e⟩ := reset_eq cls s
+theorem within_reset (cls : Classifier) (obs : Obs) (s : Store) (h : s.Within) : (resetO cls obs s).1.Within := by
+  obtain ⟨st, e, -⟩ := resetO_eq cls obs s
   rw [e]
   have w := (quiet_resetCore s).wf h.wf
   exact Store.Within.setState ⟨w, Int.le_refl _, Int.le_refl _⟩ st
 
-theorem within_wake (cls : Classifier) (s : Store) (h : s.Within) : (exitDormancy cls s).1.Within := by
-  obtain ⟨st, e⟩ := exitDormancy_eq cls s
+theorem within_wake (cls : Classifier) (obs : Obs) (s : Store) (h : s.Within) : (exitDormancyO cls obs s).1.Within := by
+  obtain ⟨st, e, -⟩ := exitDormancyO_eq cls obs s
   rw [e]; exact h.setState st
 
 theorem within_interest (s : Store) (h : s.Within) : (applyInterest s).Within :=
@@ -867,15 +998,15 @@ theorem set_all {P : Store → Prop} (sys : Sys) (j : Nat) (x : Store)
     · cases hs
   · simp only [e, reduceIte] at hs; exact h i s hs
 
-theorem step_within (cls : Classifier) (sys : Sys) (op : Op) (h : Sys.Within sys) : Sys.Within (step cls sys op).1 := by
+theorem step_within (cls : Classifier) (obs : Nat → Obs) (sys : Sys) (op : Op) (h : Sys.Within sys) : Sys.Within (step cls obs sys op).1 := by
   cases op with
-  | consume j cost cur d p => exact onStore_all sys j _ h (fun s hs => within_consume cls s cost cur d p hs)
-  | regenerate j n cur => exact onStore_all sys j _ h (fun s hs => within_regenerate cls s n cur hs)
+  | consume j cost cur d p => exact onStore_all sys j _ h (fun s hs => within_consume cls (obs j) s cost cur d p hs)
+  | regenerate j n cur => exact onStore_all sys j _ h (fun s hs => within_regenerate cls (obs j) s n cur hs)
   | convert j n => exact onStore_all sys j _ h (fun s hs => within_convert s n hs)
   | dorm j => exact onStore_all sys j _ h (fun s hs => hs.setState _)
-  | wake j => exact onStore_all sys j _ h (fun s hs => within_wake cls s hs)
+  | wake j => exact onStore_all sys j _ h (fun s hs => within_wake cls (obs j) s hs)
   | interest j => exact onStore_all sys j _ h (fun s hs => within_interest s hs)
-  | reset j => exact onStore_all sys j _ h (fun s hs => within_reset cls s hs)
+  | reset j => exact onStore_all sys j _ h (fun s hs => within_reset cls (obs j) s hs)
   | transfer a b n cur =>
     simp only [step]
     cases ha : sys[a]? with
@@ -887,12 +1018,13 @@ theorem step_within (cls : Classifier) (sys : Sys) (op : Op) (h : Sys.Within sys
         simp only []
         have h1 := set_all sys a _ h (within_withdraw sa n cur (h a sa ha))
         split
-        · exact onStore_all _ b _ h1 (fun s hs => within_regenerate cls s n cur hs)
+        · exact onStore_all _ b _ h1 (fun s hs => within_regenerate cls (obs b) s n cur hs)
         · exact h1
 
-theorem run_within (cls : Classifier) : ∀ (ops : List Op) (sys : Sys), Sys.Within sys → Sys.Within (run cls sys ops).1
-  | [], _, h => h
-  | op :: ops, sys, h => run_within cls ops _ (step_within cls sys op h)
+theorem run_within (cls : Classifier) (adv : Nat → Nat → Obs) :
+    ∀ (ops : List Op) (k : Nat) (sys : Sys), Sys.Within sys → Sys.Within (run cls adv k sys ops).1
+  | [], _, _, h => h
+  | op :: ops, k, sys, h => run_within cls adv ops (k + 1) _ (step_within cls (adv k) sys op h)
 
 theorem fresh_within (b g n md rn rd : Nat) : (Store.fresh b g n md rn rd).Within :=
   ⟨fresh_wf b g n md rn rd, by simp [Store.fresh], by simp [Store.fresh]⟩
